@@ -10,12 +10,15 @@ CONSTANTS NRows, EmitCases
 VARIABLES c
 Cols == {"a", "b", "s"}
 Numeric == {"a", "b"}
-Selections == {"none", "a", "ab", "as", "zz"}
+Selections == {"none", "a", "ab", "as", "zz", "aa"}            \* "aa": the same column listed twice
 Selected(sel) == CASE sel = "none" -> Cols [] sel = "a" -> {"a"} [] sel = "ab" -> {"a", "b"} [] sel = "as" -> {"a", "s"} [] sel = "zz" -> {"a", "zz"}
+                   [] sel = "aa" -> {"a"}
 Init == \E fn \in {"timeshift", "detrend"} : \E sel \in Selections : \E inplace \in BOOLEAN : \E trunc \in {"none", "true", "two", "huge"} :
-        \E zero \in BOOLEAN : \E samp \in {1, 3} :
+        \E zero \in BOOLEAN : \E samp \in {1, 3} : \E chain \in BOOLEAN :
            /\ (fn = "detrend" => trunc = "none" /\ ~zero /\ samp = 1)
-           /\ c = [fn |-> fn, sel |-> sel, inplace |-> inplace, trunc |-> trunc, zero |-> zero, samples2 |-> samp]   \* shift = samples2/2 samples
+           /\ (chain => fn = "timeshift" /\ ~zero /\ trunc = "none" /\ sel # "zz")
+           /\ c = [fn |-> fn, sel |-> sel, inplace |-> inplace, trunc |-> trunc, zero |-> zero, samples2 |-> samp,   \* shift = samples2/2 samples
+                   chain |-> chain]     \* a second call, on the first call's result: every numeric column, one sample, not in place
 Next == UNCHANGED c
 Spec == Init /\ [][Next]_<<c>>
 
@@ -30,7 +33,30 @@ Outcome ==
     ELSE IF Missing THEN [kind |-> "error"]
     ELSE [kind |-> "frame", transformed |-> Transformed, inplace |-> c.inplace, suffix |-> Suffix,
           newcols |-> IF c.inplace THEN {} ELSE Transformed, rows |-> Rows, ntrunc |-> NTrunc]
+(***************************************************************************)
+(* Sequences of calls: a frame is a function from the names of its numeric *)
+(* columns to their provenance <<root column, shifts applied so far>> (in  *)
+(* half samples).  One call reads every selected column FROM ITS INPUT     *)
+(* FRAME and writes the shifted copy under the target name - a target that *)
+(* already exists (a_shifted from an earlier call) is overwritten, and is  *)
+(* itself shifted from its OLD contents into a_shifted_shifted.            *)
+(***************************************************************************)
+Frame0 == [n \in Numeric |-> <<n, <<>> >>]
+Target(n, inplace) == IF inplace THEN n ELSE n \o "_shifted"
+ApplyShift(fr, sel, inplace, s2) ==            \* sel: a set of column names (non-numeric and unknown ones are ignored here)
+    LET T == sel \cap DOMAIN fr
+        targets == {Target(t, inplace) : t \in T}
+        src(n) == CHOOSE t \in T : Target(t, inplace) = n
+    IN [n \in DOMAIN fr \cup targets |-> IF n \in targets THEN <<fr[src(n)][1], Append(fr[src(n)][2], s2)>> ELSE fr[n]]
+AfterFirst == ApplyShift(Frame0, Selected(c.sel), c.inplace, c.samples2)
+AfterChain == ApplyShift(AfterFirst, DOMAIN AfterFirst, FALSE, 2)
+(* no column is ever shifted twice by one call: after the chain every provenance has at most two shifts, the second being the chain's *)
+ChainShiftsOnce == c.chain => \A n \in DOMAIN AfterChain : Len(AfterChain[n][2]) <= 2
+(* a duplicate in the selection changes nothing *)
+DuplicateSelectionIsIdempotent == c.sel = "aa" => AfterFirst = ApplyShift(Frame0, {"a"}, c.inplace, c.samples2)
+
 (* selected columns only: nothing outside the selection, and no non-numeric column, is ever transformed *)
 OnlySelectedNumeric == Outcome.kind = "frame" => Outcome.transformed \subseteq (Selected(c.sel) \cap Numeric)
-Emit == EmitCases => PrintT(ToJson([cfg |-> c, outcome |-> Outcome]))
+Emit == EmitCases => PrintT(ToJson([cfg |-> c, outcome |-> Outcome,
+                                    chain |-> IF c.chain /\ ~Missing THEN [n \in DOMAIN AfterChain |-> [root |-> AfterChain[n][1], shifts |-> AfterChain[n][2]]] ELSE <<>>]))
 =============================================================================
